@@ -88,6 +88,12 @@ Bin(f, s, x) ==
     CASE f = "add"   -> I(Num(s) + Num(x))
       [] f = "max"   -> IF Num(x) > Num(s) THEN x ELSE s
       [] f = "addrs" -> T(<<I(Num(s) + Num(x)), s>>)       \* returns (new state, result = old state)
+      \* Stream.frequencies(): the state is a table value -> count (pairs sorted by value); every emission is a table of its own
+      [] f = "freq"  -> LET ps == Items(s)
+                        IN IF \E i \in 1 .. Len(ps) : Items(ps[i])[1] = x
+                           THEN T([i \in 1 .. Len(ps) |-> IF Items(ps[i])[1] = x THEN T(<<x, I(Num(Items(ps[i])[2]) + 1)>>) ELSE ps[i]])
+                           ELSE T(SelectSeq(ps, LAMBDA p : Num(Items(p)[1]) < Num(x)) \o <<T(<<x, I(1)>>)>>
+                                  \o SelectSeq(ps, LAMBDA p : Num(Items(p)[1]) > Num(x)))
 
 ----------------------------------------------------------------------------
 (* Sequence helpers *)
